@@ -161,6 +161,13 @@ func limitsFromSpec(l *LimitSpec, p *position.Position) search.Limits {
 			mv := mg.GetMoveFromUci(p, m)
 			if mv.IsValid() {
 				sl.Moves.PushBack(mv)
+			} else if len(m) == 4 {
+				// a move that is not legal here (an API caller's list made for
+				// another position): handed over as a plain from-to move
+				from, to := types.MakeSquare(m[:2]), types.MakeSquare(m[2:4])
+				if from.IsValid() && to.IsValid() && from != to {
+					sl.Moves.PushBack(types.CreateMove(from, to, types.Normal, types.PtNone))
+				}
 			}
 		}
 	}
